@@ -10,8 +10,8 @@ K1  Model/Ws.v (extracted run_ws / run_ws_otel) vs execute_ws of the two bundled
 K3  the property's own oracle: the same real runs compared with the SPECIFICATION spec_ws
     (extracted too) on the observables of the property text (messages sent, values yielded,
     connect parameters, close() calls, outcome).  Deviations are routed by the Coq guards
-    g_shape/g_truthy (the OPEN finding classes); outside every class a deviation is a VIOLATION —
-    in particular the repaired classes F26 (frames after complete) and C13-vars-not-json, whose
+    g_shape/g_nonnull (the OPEN finding classes); outside every class a deviation is a VIOLATION —
+    in particular the repaired classes F26 (frames after complete), C13-vars-not-json, F14 for {} data, whose
     witnesses stay in the streams as regression cases.
 RT  runtime-only: a sample of sequences against a REAL websockets server on 127.0.0.1 that plays
     the frames and records handshake (subprotocol, headers, origin) and the client's messages;
@@ -118,7 +118,7 @@ CFG_SIDE = {
     "kw-other": {"url": "ws://h.test/g", "kw_other": {"ping_interval": None, "max_size": 1024}, "init_payload": {"a": 1}},
 }
 
-CLASSES = ["C13-shape-crash", "F14-falsy-data"]
+CLASSES = ["C13-shape-crash", "F14-null-data"]
 
 
 # ----------------------------------------------------------------------------------------------
@@ -231,7 +231,7 @@ def _worker(task):
             dev = [k for k in ("connect", "sent", "yielded", "closes", "fin") if I.strict(ip[k]) != I.strict(sp[k])]
             cls = None
             if dev:
-                cls = "C13-shape-crash" if not g_shape else "F14-falsy-data" if not g_truthy else None
+                cls = "C13-shape-crash" if not g_shape else "F14-null-data" if not g_truthy else None
             if diffs:
                 if len(out["k1"]) < 5:
                     out["k1"].append({"replay": replay, "differs": diffs,
